@@ -112,6 +112,8 @@ func canonOps() []OpM {
 		{Kind: "set_value", Name: "y", Val: str, Path: in2},
 		{Kind: "set_trav", Name: "a", Root: "var", Trav: tr},
 		{Kind: "set_trav", Name: "z", Root: "var", Trav: tr, Path: in1},
+		{Kind: "rename_prefix", Name: "a", Mode: 1, K: 1},
+		{Kind: "rename_prefix", Name: "a", Mode: 2, K: 2},
 		{Kind: "set_raw", Name: "c", Raw: hd},
 		{Kind: "set_raw", Name: "a", Raw: ml},
 		{Kind: "set_raw", Name: "x", Raw: hd, Path: in1},
